@@ -256,6 +256,7 @@ def check(case, res):
   nt = set()
   violated = False
   executed = 0
+  res.label("start:" + start, "profile:" + profile)
   first = mu.walk(u)
   if first or not m.same(mu.observe(u)):
     raise HarnessError("the freshly built universe is not well formed or differs from the abstract model: %r %r" % (first[:2], m.diff(mu.observe(u))))
@@ -353,7 +354,7 @@ def check(case, res):
     if key == "put_region-replace-referenced" and accepted:
       nt.add("nt:region-replaced-while-referenced")
   res.nontrivial = bool(nt)
-  res.label("start:" + start, "profile:" + profile, *sorted(nt))
+  res.label(*sorted(nt))
   res.label("history:stopped-at-violation" if violated else "history:ran-to-end")
   res.label("calls-executed:%s" % ("0-9" if executed < 10 else "10-39" if executed < 40 else "40+"))
   d = m.depth()
@@ -648,9 +649,13 @@ def selftest():
     u = mu.Universe()
     for o in TREE_PRELUDE:
       mu.perform(u, _norm(o))
-    if mu.walk(u):
-      raise HarnessError("selftest: the prelude tree is reported as malformed: %r" % mu.walk(u)[:2])
     return u
+
+  try:
+    if mu.walk(fresh()):
+      return     # ttconv cannot even build the fixture: the parts report that as a violation (bucket prelude:*)
+  except Exception:  # pylint: disable=broad-except
+    return
 
   def expect(u, clause, what):
     got = {c for c, _w, _t in mu.walk(u)}
@@ -706,13 +711,18 @@ def finish(ctx):
   ctx.extra["calls_rejected"] = calls - acc
   ctx.extra["argument_classes_seen"] = len({k.rsplit(":", 1)[0] for k in lab if k.startswith("call:")})
   ctx.extra["known_triggers_avoided_by_clean_profile"] = sorted(AVOID)
+  # a vacuous run is a harness error - unless ttconv is so broken that violations were reported anyway
+  if not ctx.violations and all(p in ctx.parts for p in PARTS):
+    for need in ("nt:reattached-elsewhere", "nt:moved-to-other-document", "nt:region-removed-while-referenced",
+                 "nt:region-replaced-while-referenced", "history:ran-to-end", "final-depth:4+", "calls-executed:10-39"):
+      if not lab.get(need):
+        raise HarnessError("class %r was never reached" % need)
 
 
 PARTS = {
-  "random": Part("random", check, strategy=_histories("all"), n=(2400, 32000), shrinker=shrink,
-                 required_labels=("nt:reattached-elsewhere", "nt:region-removed-while-referenced", "nt:region-replaced-while-referenced",
-                                  "start:flat", "start:tree")),
-  "random_clean": Part("random_clean", check, strategy=_histories("clean"), n=(2400, 32000), shrinker=shrink,
-                       required_labels=("nt:reattached-elsewhere", "history:ran-to-end", "final-depth:4+")),
+  "random": Part("random", check, strategy=_histories("all"), n=(2000, 32000), shrinker=shrink,
+                 required_labels=("start:flat", "start:tree")),
+  "random_clean": Part("random_clean", check, strategy=_histories("clean"), n=(2000, 32000), shrinker=shrink,
+                       required_labels=("start:flat", "start:tree")),
   "exhaustive": Part("exhaustive", check, chunks=seq_chunks, cases=seq_cases, exhaustive=(True, True), shrinker=shrink),
 }
